@@ -1911,7 +1911,8 @@ impl LineBuf {
 	}
 
 	pub fn end_of_word_backward(&mut self, mut pos: usize, word: Word, include_last_char: bool) -> usize {
-		let default = self.grapheme_indices().len();
+		// Searching backwards: with no word end before the cursor, the start of the buffer is as far as it goes
+		let default = 0;
 		let mut indices_iter = (0..pos).rev().peekable();
 
 		match word {
@@ -2538,6 +2539,10 @@ impl LineBuf {
 				let include_last_char = verb == Some(&Verb::Change) &&
 					matches!(motion.1, Motion::WordMotion(To::Start, _, Direction::Forward));
 
+				if dir == Direction::Backward && self.cursor.get() == 0 {
+					// 'b' and 'ge' at the start of the buffer fail
+					return MotionKind::Null
+				}
 				let pos = self.dispatch_word_motion(count, to, word, dir, include_last_char);
 				let pos = ClampedUsize::new(pos,self.cursor.max,false);
 				// End-based operations must include the last character
